@@ -8,7 +8,9 @@ use std::io::{self, Result};
 use std::marker::PhantomData;
 use std::os::fd::IntoRawFd;
 use std::os::unix::io::{AsRawFd, RawFd};
+use std::sync::Mutex;
 
+use virtio_queue::QueueT;
 use vmm_sys_util::epoll::{ControlOperation, Epoll, EpollEvent, EventSet};
 use vmm_sys_util::event::EventNotifier;
 
@@ -63,6 +65,10 @@ pub struct VringEpollHandler<T: VhostUserBackend> {
     vrings: Vec<T::Vring>,
     thread_id: usize,
     exit_event_fd: Option<EventNotifier>,
+    // Held by the worker from the moment it looks at a vring's state until the backend's
+    // `handle_event()` has returned. The control path takes it after it has stopped or disabled
+    // a vring, to wait for a dispatch that was already under way (see `wait_for_dispatch()`).
+    dispatch: Mutex<()>,
     phantom: PhantomData<T::Bitmap>,
 }
 
@@ -110,6 +116,7 @@ where
             vrings,
             thread_id,
             exit_event_fd,
+            dispatch: Mutex::new(()),
             phantom: PhantomData,
         })
     }
@@ -142,6 +149,17 @@ where
         } else {
             self.unregister_event(fd, ev_type, data)
         }
+    }
+
+    /// Wait until the worker is not in the middle of dispatching an event.
+    ///
+    /// Called by the control path after it has stopped or disabled a vring (state changed, kick
+    /// fd out of the epoll set) and before the request is answered: a dispatch that had already
+    /// passed its "is the vring live?" check completes first, and any later one sees the new
+    /// state. Without this the backend's `handle_event()` can still be entered for a vring
+    /// after the frontend has been told that it is stopped.
+    pub(crate) fn wait_for_dispatch(&self) {
+        drop(self.dispatch.lock().unwrap_or_else(|e| e.into_inner()));
     }
 
     pub(crate) fn register_event(&self, fd: RawFd, ev_type: EventSet, data: u64) -> Result<()> {
@@ -225,8 +243,15 @@ where
             return Ok(true);
         }
 
+        let _dispatch = self.dispatch.lock().unwrap_or_else(|e| e.into_inner());
+
         if (device_event as usize) < self.vrings.len() {
             let vring = &self.vrings[device_event as usize];
+            // A wake-up that was already on its way when GET_VRING_BASE stopped the vring (and
+            // dropped its kick fd) is stale: a stopped vring is not processed.
+            if !vring.get_ref().get_queue().ready() {
+                return Ok(false);
+            }
             #[cfg(feature = "verif-hooks")]
             vhost::verif::point("worker.before_read_kick");
             let enabled = vring
